@@ -807,15 +807,17 @@ class CycleTrack:
         self.md = make_md(self.T_all, self.R_all)
         self.gp = make_gp(self.md, ft, fr, limit)
         if limit:
-            # limit_highest_data clips the response ONCE, when the surrogate is constructed (by design);
-            # from then on the dataset "as fitted" is the reference that additions must leave intact
-            R0 = np.atleast_1d(np.array(self.md.response, dtype=float))
-            self.R_all = R0 * self.md.resp_props["std"] + self.md.resp_props["mean"] if fr else R0.copy()
+            # limit_highest_data clips the response ONCE, when the surrogate is constructed (by design): responses above
+            # five times the magnitude of the mean response are set to that limit, in the units the data were given in.
+            # The reference is computed here from the raw data, not read back from the object
+            self.R_all = np.clip(self.R_all, None, 5.0 * abs(float(np.mean(self.R_all))))
 
     def apply(self, step: int, op) -> tuple[str, str] | None:
         md, gp, ft, fr = self.md, self.gp, self.ft, self.fr
         try:
-            if op[0] == "add":
+            if op[0] == "check":
+                low = None                      # nothing is done: the dataset as constructed is examined
+            elif op[0] == "add":
                 t2, r2 = np.array(op[1], dtype=float), np.array(op[2], dtype=float)
                 if t2.size == 0:
                     t2 = t2.reshape(0, self.T_all.shape[1])
@@ -859,6 +861,16 @@ def predicate_cycle(T, R, ft: bool, fr: bool, ops: list, limit: bool = False) ->
     with warnings.catch_warnings():
         warnings.simplefilter("ignore")
         tr = CycleTrack(T, R, ft, fr, limit)
+        r = tr.apply(-1, ("check",))
+        if r:
+            return ("cycle:construct:" + r[0].split(":")[-1], r[1])
+        if fr:
+            Rs = np.atleast_1d(np.array(tr.md.response, dtype=float))
+            condr = float(np.max(np.abs(tr.R_all))) / max(float(np.std(tr.R_all)), 1e-300)
+            tolr = 1e-9 + 200 * 2.3e-16 * condr
+            if len(Rs) >= 2 and np.ptp(tr.R_all) > 0 and (abs(float(np.mean(Rs))) > tolr or abs(float(np.std(Rs)) - 1) > tolr):
+                return ("cycle:construct:moments", f"the response stored by a freshly constructed surrogate (standardise_response, "
+                        f"limit_highest_data={limit}) has mean {float(np.mean(Rs))!r} and spread {float(np.std(Rs))!r}")
         for step, op in enumerate(ops):
             r = tr.apply(step, op)
             if r:
